@@ -632,3 +632,11 @@ func doReplay(drivers map[string]Driver, path, root string, verbose bool) int {
 	}
 	return 1
 }
+
+var registry = map[string]Driver{}
+
+// Register adds a driver to the global registry (used by cmd/vcheck's reg_*.go files).
+func Register(d Driver) { registry[d.ID()] = d }
+
+// MainRegistered runs Main over the registry.
+func MainRegistered() { Main(registry) }
